@@ -497,6 +497,11 @@ func runC03(c *Ctx) {
 	c.Min("C03-R7", 14)
 
 	c.Rule("C03-R9", "the legacy de-duplication pass deletes a row keyed by a hash starting with 'l' only when that hash names a live transaction", func() {
+		if c.FnOpt("aqua:upgradeDeduplicateData") == nil {
+			// the legacy pass was removed altogether: nothing rewrites rows behind the accessors' back
+			c.Ob("C03-R9", "legacy de-duplication pass absent (nothing to decide)", "", true, "aqua.upgradeDeduplicateData does not exist")
+			return
+		}
 		up := c.FnOpt("aqua:upgradeDeduplicateData$1")
 		if up == nil {
 			c.Ob("C03-R9", "legacy de-duplication goroutine found", "", false, "aqua:upgradeDeduplicateData$1 not found")
@@ -534,7 +539,11 @@ func runC03(c *Ctx) {
 			})
 		}
 	})
-	c.Min("C03-R9", 12)
+	if c.FnOpt("aqua:upgradeDeduplicateData") == nil {
+		c.Min("C03-R9", 1)
+	} else {
+		c.Min("C03-R9", 12)
+	}
 }
 
 // storesInto: values stored into (elements of) the allocation.
